@@ -215,14 +215,17 @@ func (w *World) runPuppetClient(ci int, ops []PuppetOp) {
 					pc.sent[seq] = id
 				}
 			case "upgrade":
+				w.Points = append(w.Points, fmt.Sprintf("%s/upgrade/%d/sz%d", w.P.Header, op.Val, op.Size))
 				// an otherwise valid unary request with an arbitrary upgrade byte
 				m := &Msg{ID: id, N: 8, Pad: MakePad(ReqKey(id), op.Size)}
 				payload = encodeRequest(w.P.Header, seq, []byte{byte(op.Val)}, w.methodName(0), w.bodyOf(m))
 				w.Net.fault("odd-upgrade")
 			case "trunc":
+				w.Points = append(w.Points, fmt.Sprintf("%s/%s/trunc/%d/sz%d", w.P.Header, op.Kind, op.Pos%max(1, len(payload)), op.Size))
 				payload = mutate(payload, op)
 				w.Net.fault("truncate")
 			case "flip":
+				w.Points = append(w.Points, fmt.Sprintf("%s/%s/flip/%d=%d/sz%d", w.P.Header, op.Kind, op.Pos%max(1, len(payload)), op.Val, op.Size))
 				payload = mutate(payload, op)
 				w.Net.fault("flip-byte")
 			}
